@@ -219,3 +219,68 @@ func descNames(ns []string, L int) string {
 	}
 	return "[" + out + "]"
 }
+
+// Plain (non-dictionary) strings in bulk: the writer cuts frames by what its size limiter has been
+// told; the reader refuses any frame above pkg.FrameSizeLimit (64 MiB). More than 64 MiB of plain
+// string bodies between two Flush calls, every record far inside the documented limits, default
+// options: the stream must read back (the writer must have cut frames on its own).
+func bigPlainStringCases(prop string) {
+	recs, each := 23, 3<<20
+	if thorough {
+		recs = 40
+	}
+	for ci, comp := range []pkg.Compression{pkg.CompressionNone} {
+		name := fmt.Sprintf("plain-strings-%dx%dMiB-c%d", recs, each>>20, ci)
+		note("case %s", name)
+		cw := &chunkLog{}
+		w, err := otelstef.NewSpansWriter(cw, pkg.WriterOptions{Compression: comp})
+		if err != nil {
+			propFail("%s plainstr-writer case=%s %v", prop, name, err)
+			continue
+		}
+		body := make([]byte, each)
+		ok := true
+		for i := 0; i < recs && ok; i++ {
+			for x := 0; x < len(body); x += 509 {
+				body[x] = byte('a' + (i+x)%26)
+			}
+			body[0] = byte('A' + i%26)
+			w.Record.Span().SetTraceState(string(body))
+			w.Record.Span().SetStartTimeUnixNano(uint64(i))
+			if err := w.Write(); err != nil {
+				propFail("%s plainstr-write case=%s record %d: %v", prop, name, i, err)
+				ok = false
+			}
+		}
+		if !ok {
+			continue
+		}
+		w.Flush()
+		stats["plain-string-bytes"] += recs * each
+		note("nontrivial %x", uint64(recs)<<8|uint64(ci))
+		maxFrame := 0
+		prev := 0
+		for _, e := range cw.ends {
+			if e-prev > maxFrame {
+				maxFrame = e - prev
+			}
+			prev = e
+		}
+		rd, err := otelstef.NewSpansReader(bytes.NewReader(cw.buf.Bytes()))
+		if err != nil {
+			propFail("%s plainstr-not-readable case=%s %v", prop, name, err)
+			continue
+		}
+		for i := 0; i < recs; i++ {
+			if err := rd.Read(pkg.ReadOptions{}); err != nil {
+				propFail("%s plainstr-not-readable case=%s %d records with a distinct %d MiB plain string each (TraceState), default writer options, one Flush at the end: the largest chunk the writer emitted has %d bytes; Read of record %d returned: %v", prop, name, recs, each>>20, maxFrame, i, err)
+				break
+			}
+			ts := rd.Record.Span().TraceState()
+			if len(ts) != each || ts[0] != byte('A'+i%26) || rd.Record.Span().StartTimeUnixNano() != uint64(i) {
+				propFail("%s plainstr-value-changed case=%s record %d read back with a %d byte string starting %q", prop, name, i, len(ts), ts[:1])
+				break
+			}
+		}
+	}
+}
